@@ -219,18 +219,58 @@ def gen_flood(rng, nsrc, per, ties, extra):
             "must": [], "distinct": False}
 
 
+class _Tbl:
+    """generator-side sketch of the reassembly table (age order, caps, completion), used only to STEER gen_ownold towards
+    the situation it is after; every expectation is evaluated by the harness on the real table and by the Coq model."""
+
+    def __init__(self):
+        self.e = {}            # (src, mid) -> [tot, set(idx)]   (insertion order = age order, deadlines never move)
+        self.n = {}
+        self.selfev = 0        # evictions that removed an entry of the source that was opening a message
+
+    def drop(self, k):
+        del self.e[k]
+        self.n[k[0]] -= 1
+
+    def pkt(self, s, mid, idx, tot):
+        k = (s, mid)
+        if k not in self.e:
+            if self.n.get(s, 0) >= 8:
+                return
+            if len(self.e) >= 4096:
+                old = next(iter(self.e))
+                self.selfev += (old[0] == s)
+                self.drop(old)
+            self.e[k] = [tot, set()]
+            self.n[s] = self.n.get(s, 0) + 1
+        elif self.e[k][0] != tot:
+            return
+        if idx < tot:
+            self.e[k][1].add(idx)
+            if len(self.e[k][1]) >= tot:
+                self.drop(k)
+
+    def oldest_src(self):
+        return next(iter(self.e))[0] if self.e else None
+
+    def of(self, s):
+        return [(k[1], v[0], v[1]) for k, v in self.e.items() if k[0] == s]
+
+
 def gen_ownold(rng, per, ties, fills=1, maxgap=20):
     """global cap reached while the OLDEST entries belong to the very source(s) that open the next messages.
 
     Per fill: (A) an "old layer": 1-3 victim sources open 1..7 messages each, interleaved in age with small groups of
     filler entries; (B) filler sources (per messages each) fill the table up to the cap (or 1-2 short of it);
-    (C) eviction phase, long enough to consume the old layer: victims open new messages (the entry evicted is
-    their own oldest one whenever a victim entry heads the age order), new filler keys open (cross-source eviction of
+    (C) eviction phase, long enough to consume the old layer: the victim that owns the oldest entry opens a new
+    message (its own oldest entry is the one evicted), other victims / new filler keys open (cross-source eviction of
     a victim entry), victims complete / duplicate chunks, pass-through packets, no-op gc; (D) everything expires
-    (gc ticks, or direct gcExpired, optionally after a partial sweep at a victim deadline); (E) every victim opens
-    8 messages (all must be admitted), a 9th (refused), completes some, opens again.  The expectations (admitted iff
-    the table really holds < 8 entries of the source; counters = census; perSource empty after expiry) are evaluated
-    by the harness on the real table and by the model through the per-step digest."""
+    (gc ticks, or direct gcExpired, optionally after a partial sweep); (E) every victim opens 8 messages (all must be
+    admitted), a 9th (refused), completes some, opens again.  Victim entries have deadlines distinct from all others
+    (ties only inside filler groups), so who owns the oldest entry does not depend on Go's map order.
+    The expectations (admitted iff the table really holds < 8 entries of the source; counters = census, at every step
+    that ran at the cap; perSource empty after expiry) are evaluated by the harness on the real table and by the
+    model through the per-step digest."""
     CAP = 4096
     nv = rng.randint(1, 3)
     victims = list(range(nv))
@@ -240,7 +280,7 @@ def gen_ownold(rng, per, ties, fills=1, maxgap=20):
         l = list(range(256))
         rng.shuffle(l)
         ids[v] = l
-    pend = {v: [] for v in victims}      # (mid, tot, idx sent) the generator believes pending (approximate)
+    tb = _Tbl()
     nfill = [0]
     fbase = 100 + rng.randrange(1000)
     now = [0]
@@ -249,90 +289,101 @@ def gen_ownold(rng, per, ties, fills=1, maxgap=20):
         now[0] += o.get("d", 0)
         ops.append(o)
 
+    def frame(s, d, mid, idx, tot, pad, payload):
+        emit({"o": "p", "d": d, "s": s, "h": raw_frame(mid, idx, tot, pad, payload).hex()})
+        tb.pkt(s, mid, idx, tot)
+
     def filler(d):
         n = nfill[0]
         nfill[0] += 1
         s, m = fbase + n // per, (n % per) * 37 % 256
-        emit({"o": "p", "d": d, "s": s, "h": raw_frame(m, rng.randrange(2), rng.choice([2, 2, 3, 8]), 0, bytes([s % 256])).hex()})
+        frame(s, d, m, rng.randrange(2), rng.choice([2, 2, 3, 8]), 0, bytes([s % 256]))
 
     def vopen(v, d):
         mid = ids[v].pop()
         if not ids[v]:
-            ids[v] = list(range(256))
+            ids[v] = [m for m in range(256) if (v, m) not in tb.e]
+            rng.shuffle(ids[v])
         tot = rng.choice([2, 2, 2, 3, 8])
-        idx = rng.randrange(tot)
-        pend[v].append((mid, tot, idx))
-        emit({"o": "p", "d": d, "s": v, "h": raw_frame(mid, idx, tot, rng.choice([0, 0, 3]), bytes([0xC0 | v, mid])).hex()})
+        frame(v, d, mid, rng.randrange(tot), tot, rng.choice([0, 0, 3]), bytes([0xC0 | v, mid]))
 
-    def vcomplete(v):
-        if not pend[v]:
+    def vcomplete(v, youngest=False):
+        mine = tb.of(v)
+        if not mine:
             return
-        mid, tot, idx = pend[v].pop(rng.randrange(len(pend[v])))
+        mid, tot, have = mine[-1] if youngest else rng.choice(mine)
         for i in range(tot):
-            if i != idx:
-                emit({"o": "p", "d": rng.choice([0, 1]), "s": v, "h": raw_frame(mid, i, tot, 0, bytes([i, mid])).hex()})
+            if i not in have:
+                frame(v, rng.choice([0, 1]), mid, i, tot, 0, bytes([i, mid]))
 
     for _fill in range(fills):
         # (A) old layer
-        toks = [v for v in victims for _ in range(rng.randint(1, 7))]
+        toks = [v for v in victims for _ in range(rng.choice([1, 2, 4, 6, 7, 7]))]
+        if len(toks) < 4:
+            toks += [victims[0]] * rng.randint(3, 5)
         rng.shuffle(toks)
-        opened = 0
         for v in toks:
             vopen(v, 1)
-            opened += 1
             g = rng.choice([0, 0, 1, 2, 5, maxgap])
             for j in range(g):
                 filler(1 if (j == 0 or not ties) else 0)
-                opened += 1
-        old = opened
+        old = len(tb.e)
         # (B) bulk fill
         slack = rng.choice([0, 0, 1, 2])
         first = True
-        while opened < CAP - slack:
+        while len(tb.e) < CAP - slack:
             filler(1 if (first or not ties or rng.random() < 0.1) else 0)
             first = False
-            opened += 1
         # (C) evictions
+        need = tb.selfev + rng.choice([1, 3, 8])
         for _ in range(2 * old + 40):
             r = rng.random()
             v = rng.choice(victims)
-            if r < 0.45:
-                vopen(v, 1)
-            elif r < 0.75:
-                filler(rng.choice([0, 1]) if ties else 1)
-            elif r < 0.85:
+            own = tb.oldest_src()
+            nxt = 1 if tb.e and next(iter(tb.e))[0] in victims else None   # a victim entry heads the age order
+            if r < 0.45 or (nxt and (r < 0.60 or tb.selfev < need)):
+                w = own if (nxt and (tb.selfev < need or rng.random() < 0.85)) else v
+                if w == own and tb.n.get(w, 0) >= 8 and (tb.selfev < need or rng.random() < 0.8):
+                    vcomplete(w, youngest=True)   # make room: a source at its own cap is refused before any eviction
+                if w == own and tb.selfev < need:
+                    while len(tb.e) < CAP:        # completions took the table below the cap: top it up again
+                        filler(1)
+                vopen(w, 1)
+            elif r < 0.70:
+                filler(1 if (nxt or not ties) else rng.choice([0, 1]))
+            elif r < 0.80:
                 vcomplete(v)
-            elif r < 0.90 and pend[v]:
-                mid, tot, idx = rng.choice(pend[v])
-                emit({"o": "p", "d": 1, "s": v, "h": raw_frame(mid, idx, tot, 0, b"dup").hex()})
+            elif r < 0.85 and tb.of(v):
+                mid, tot, have = rng.choice(tb.of(v))
+                if have:
+                    frame(v, 1, mid, rng.choice(sorted(have)), tot, 0, b"dup")
+            elif r < 0.90 and tb.of(v):
+                mid, tot, have = rng.choice(tb.of(v))
+                frame(v, 1, mid, 0, tot % 8 + 2, 0, b"tot")                        # inconsistent chunk count
             elif r < 0.95:
                 emit({"o": "p", "d": 1, "s": rng.choice(victims + [fbase]), "h": short_pkt(rng).hex()})
             else:
-                emit({"o": "g", "d": 1, "t": rng.choice([0, now[0], TTL])})
+                emit({"o": "g", "d": 1, "t": rng.choice([0, now[0] % TTL, TTL])})
         # (D) expiry
         r = rng.random()
         if r < 0.3:
             emit({"o": "g", "d": 1, "t": TTL + rng.randrange(1, now[0] + 1)})      # partial sweep first
         if r < 0.65:
-            dd = TTL + PERIOD
-            emit({"o": "t", "d": dd})
+            emit({"o": "t", "d": TTL + PERIOD})
         else:
-            emit({"o": "g", "d": 1, "t": 10**13})
-        for v in victims:
-            pend[v] = []
+            emit({"o": "g", "d": 1, "t": now[0] + TTL + 2})
+        tb = _Tbl()
         # (E) after expiry nobody is locked out and no counter is left behind
         for v in victims:
             for _ in range(8):
                 vopen(v, rng.choice([0, 1]))
             vopen(v, 1)                       # the 9th: refused
-            pend[v].pop()
             for _ in range(rng.randint(0, 3)):
                 vcomplete(v)
                 vopen(v, 1)
         if _fill + 1 < fills or rng.random() < 0.5:
-            emit({"o": "g", "d": 1, "t": 10**14})
-            for v in victims:
-                pend[v] = []
+            emit({"o": "g", "d": 1, "t": now[0] + TTL + 2})
+            tb = _Tbl()
     return {"k": "seq", "fam": "ownold", "omin": 20, "omax": 60, "rbuf": 2048, "senders": [], "msgs": [], "ops": ops,
             "must": [], "distinct": False}
 
@@ -445,10 +496,19 @@ def to_coq(c, o):
     return None
 
 
+def selfevicts(c, o):
+    """steps at the cap where a key of the packet's own source, other than the packet's key, left the table"""
+    n = 0
+    for r, op in zip(o.get("steps") or [], c.get("ops") or []):
+        if r[5] > 0 and op.get("o") == "p" and op.get("s") == r[5] - 1 and len(op["h"]) >= 4 and int(op["h"][2:4], 16) != r[6]:
+            n += 1
+    return n
+
+
 def feats(o, c=None):
     st = o.get("steps") or []
     f = []
-    if c is not None and any(r[5] > 0 and op.get("s") == r[5] - 1 for r, op in zip(st, c.get("ops") or [])):
+    if c is not None and selfevicts(c, o) > 0:
         f.append("selfevict")        # the global-cap eviction removed an entry of the source that was opening a message
     if any(r[0] > 0 for r in st):
         f.append("emit")
